@@ -736,7 +736,9 @@ pub fn huge_group_ast(rng: &mut Rng, n: usize) -> MapAst {
     let mut items = vec![Item::Class { orig: "com.example.Huge".into(), obf: "h.g".into() }];
     let shared = (10u128, 20u128);
     for i in 0..n {
-        let kind = rng.below(10);
+        // entries without a range only appear in the last fifth, so that a line outside
+        // every range is skipped by tens of thousands of consecutive entries
+        let kind = if i * 5 < n * 4 { [0usize, 1, 2, 3, 4, 7, 8, 9][rng.below(8)] } else { rng.below(10) };
         let (start, end) = match kind {
             0..=4 => (Some(shared.0), Some(shared.1)),
             5..=6 => (None, None),
